@@ -168,9 +168,13 @@ func randOps(rnd *rand.Rand, cat *Catalog, steps int, profile string, honest boo
 			case 1:
 				off = rnd.Intn(4)
 			}
+			streamed := 0
+			if rnd.Intn(3) == 0 {
+				streamed = 1 // no Content-Length
+			}
 			switch x := rnd.Intn(10); {
 			case x < 5:
-				ops = append(ops, Op{Op: "RawPatch", R: r, U: u, Data: data, Off: off})
+				ops = append(ops, Op{Op: "RawPatch", R: r, U: u, Data: data, Off: off, Chunk: streamed})
 				openU[u] = append(openU[u], data...)
 			case x < 8:
 				dd := digOf(blobs)
@@ -182,7 +186,7 @@ func randOps(rnd *rand.Rand, cat *Catalog, steps int, profile string, honest boo
 						}
 					}
 				}
-				ops = append(ops, Op{Op: "RawPut", R: r, U: u, Data: data, Off: off, DD: dd})
+				ops = append(ops, Op{Op: "RawPut", R: r, U: u, Data: data, Off: off, DD: dd, Chunk: streamed})
 				openU[u] = all
 			default:
 				ops = append(ops, Op{Op: "RawStatus", R: r, U: u})
